@@ -44,6 +44,31 @@ def dispatch_order(ctx, fi, var):
     return order, arms
 
 
+def card_forms(chk, ctx, rule='C19.card_forms') -> None:
+    """an absent card argument is recognised by `is None`: the unknown card and an empty tuple are values"""
+    n_c = 0
+    for name, fi in ctx.state.methods.items():
+        a = fi.node.args
+        opt = [arg.arg for arg, d in zip(reversed(a.posonlyargs + a.args), reversed(a.defaults))
+               if isinstance(d, ast.Constant) and d.value is None and arg.annotation is not None and 'CardsLike' in ast.unparse(arg.annotation)]
+        if not opt:
+            continue
+        bad = []
+        for node in ast.walk(fi.node):
+            tests = []
+            if isinstance(node, (ast.If, ast.While, ast.IfExp)):
+                tests.append(node.test)
+            if isinstance(node, ast.BoolOp):
+                tests.extend(node.values)
+            if isinstance(node, ast.UnaryOp) and isinstance(node.op, ast.Not):
+                tests.append(node.operand)
+            bad += [t for t in tests if isinstance(t, ast.Name) and t.id in opt]
+        n_c += 1
+        chk.ob(rule, f'State.{name}', not bad, ctx.loc(fi, bad[0]) if bad else fi.loc,
+               'cards given as objects, iterables or text denote the same cards: "no cards given" is tested with `is None`, '
+               'never by truthiness (Card.UNKNOWN and an empty tuple are falsy values)')
+
+
 def run(chk, ctx) -> None:
     prog = ctx.prog
     mi = prog.module('utilities')
@@ -159,28 +184,7 @@ def run(chk, ctx) -> None:
             ok &= bool(rs) and all(r == T.spec(w) for r in rs)
         ok &= all(p.raised and p.outcome[1] == 'ValueError' for p in arms['else'])
         chk.ob('C19.clean', 'Card.clean:arms', ok, cl.loc, 'each form is turned into the tuple of the cards it denotes')
-    # an absent card argument is recognised by `is None`: the unknown card and an empty tuple are values
-    n_c = 0
-    for name, fi in ctx.state.methods.items():
-        a = fi.node.args
-        opt = [arg.arg for arg, d in zip(reversed(a.posonlyargs + a.args), reversed(a.defaults))
-               if isinstance(d, ast.Constant) and d.value is None and arg.annotation is not None and 'CardsLike' in ast.unparse(arg.annotation)]
-        if not opt:
-            continue
-        bad = []
-        for node in ast.walk(fi.node):
-            tests = []
-            if isinstance(node, (ast.If, ast.While, ast.IfExp)):
-                tests.append(node.test)
-            if isinstance(node, ast.BoolOp):
-                tests.extend(node.values)
-            if isinstance(node, ast.UnaryOp) and isinstance(node.op, ast.Not):
-                tests.append(node.operand)
-            bad += [t for t in tests if isinstance(t, ast.Name) and t.id in opt]
-        n_c += 1
-        chk.ob('C19.card_forms', f'State.{name}', not bad, ctx.loc(fi, bad[0]) if bad else fi.loc,
-               'cards given as objects, iterables or text denote the same cards: "no cards given" is tested with `is None`, '
-               'never by truthiness (Card.UNKNOWN and an empty tuple are falsy values)')
+    card_forms(chk, ctx)
     chk.floor('C19.card_forms', 6)
     # --------------------------------------------------------------- validation
     want = [
